@@ -16,8 +16,8 @@ import (
 )
 
 // Fault transparency (E1, fault enumeration): a single transient store failure at ANY store call of an operation -
-// before the call (no effect), for writes also after the call landed or after the request body was consumed, for reads
-// also a request that hangs and then fails - must never make the operation report success with a result other than
+// before the call (no effect), for writes also after the call landed or after the request body was consumed, for every
+// call also a request that hangs and then fails - must never make the operation report success with a result other than
 // the fault-free one. Reporting the error is always acceptable.
 
 func transientFaults(clients ...int) func(x *lib.Exec, c *lib.Call) []lib.Decision {
@@ -25,13 +25,25 @@ func transientFaults(clients ...int) func(x *lib.Exec, c *lib.Call) []lib.Decisi
 		for _, id := range clients {
 			if c.Client == id {
 				if c.Write {
-					return []lib.Decision{lib.FailBefore, lib.FailAfter, lib.FailConsumed}
+					return []lib.Decision{lib.FailBefore, lib.FailAfter, lib.FailConsumed, lib.FailSlow}
 				}
 				return []lib.Decision{lib.FailBefore, lib.FailSlow}
 			}
 		}
 		return nil
 	}
+}
+
+// noPanic runs an operation of the code under test inside a client: a panic becomes an error and is remembered, so that
+// the scenario's Final reports it as a violation instead of losing the whole process.
+func noPanic(x *lib.Exec, f func() error) (err error) {
+	defer func() {
+		if r := recover(); r != nil {
+			x.Data["panic"] = fmt.Sprint(r)
+			err = fmt.Errorf("panic: %v", r)
+		}
+	}()
+	return f()
 }
 
 var (
